@@ -407,6 +407,15 @@ func c07R2(c *Check) {
 			where := P.Pos(instrPos(r))
 			v := alt.V
 			fs := alt.Facts
+			// the library form: strings.Cut(strings.Cut(input, "#")#before, "?")#before (or with the separators
+			// in the other order) — `before` is the prefix up to the first separator, or the whole string: the
+			// composition is the prefix of the input that ends at the first '?' or '#', whichever comes first
+			if isCutPrefixOf(v, in, map[string]bool{"?": true, "#": true}) {
+				c.Pass("C07.R2", key, where, "path = strings.Cut(strings.Cut(input, sep1).before, sep2).before over both separators: the prefix up to the first '?' or '#'")
+				c.Pass("C07.R2", key+"/cut-covers-query", where, "the '?' separator is cut")
+				c.Pass("C07.R2", key+"/cut-covers-fragment", where, "the '#' separator is cut")
+				continue
+			}
 			switch x := v.(type) {
 			case *ssa.Parameter:
 				if x != in {
@@ -969,4 +978,34 @@ func c07R4(c *Check, sr *serverRoles) {
 		}
 		c.Obl(ok, "C07.R4", key, P.Pos(ta.Pos()), why, "arm "+name+": "+why)
 	}
+}
+
+// isCutPrefixOf: v is the `before` result of a chain of strings.Cut calls that starts at the input and
+// uses every separator of want exactly once.
+func isCutPrefixOf(v ssa.Value, in ssa.Value, want map[string]bool) bool {
+	left := map[string]bool{}
+	for k := range want {
+		left[k] = true
+	}
+	cur := resolveCell(stripConv(v))
+	for i := 0; i < 4; i++ {
+		ex, ok := cur.(*ssa.Extract)
+		if !ok || ex.Index != 0 {
+			return false
+		}
+		call, ok := ex.Tuple.(*ssa.Call)
+		if !ok || !isCallTo(call, "strings.Cut") {
+			return false
+		}
+		sep, isC := constString(call.Common().Args[1])
+		if !isC || !left[sep] {
+			return false
+		}
+		delete(left, sep)
+		cur = resolveCell(stripConv(call.Common().Args[0]))
+		if cur == in {
+			return len(left) == 0
+		}
+	}
+	return false
 }
